@@ -10,13 +10,13 @@
    The code before those two repairs is kept at the end of the file as *_old, as
    documentation of the defects (over-read of x[entries_length]; 0/0 on equal UTC times).
 
-   Memory: the two arrays sample_id[] / utc[] hold `length entries` initialised cells.
-   `alloc` is entries_alloc, `phys` is the number of 8-byte cells the heap objects really
-   have: malloc(ENTRIES_ALLOC_INIT * sizeof(double)) gives phys = alloc = 1000, but
+   Memory: the two arrays sample_id[] / utc[] hold `length tm_entries` initialised cells.
+   `tm_alloc` is entries_alloc, `tm_phys` is the number of 8-byte cells the heap objects really
+   have: malloc(ENTRIES_ALLOC_INIT * sizeof(double)) gives tm_phys = tm_alloc = 1000, but
    realloc(entries_alloc * sizeof(struct jls_utc_summary_entry_s)) gives 16 bytes per entry,
-   i.e. phys = 2 * alloc after the first growth.  A read at an index in [length, phys) returns
+   i.e. tm_phys = 2 * tm_alloc after the first growth.  A read at an index in [length, tm_phys) returns
    uninitialised heap content, modelled by the parameter `junk` (any value); a read at an
-   index >= phys is outside the heap object: TmFault Tm_OOB_read.  The current code never reads at
+   index >= tm_phys is outside the heap object: TmFault Tm_OOB_read.  The current code never reads at
    an index >= length (search_total); only the old code did.
 
    Arithmetic: the C computes in binary64.  The model computes the same expressions, in
@@ -58,16 +58,16 @@ Definition TMAP_TIME_SECOND : Z := Z.of_N JLS_TIME_SECOND.   (* jls/time.h: 1 <<
 Definition TMAP_CELL_BYTES : N := 8.               (* sizeof(int64_t) = sizeof(double) *)
 
 Record tmap : Type := mk_tmap {
-  rate    : Q;               (* sample_rate (a finite double is a rational) *)
-  alloc   : nat;             (* entries_alloc *)
-  phys    : nat;             (* 8-byte cells really allocated for each array *)
-  entries : list (Z * Z)     (* (sample_id[i], utc[i]) for i < entries_length *)
+  tm_rate    : Q;               (* sample_rate (a finite double is a rational) *)
+  tm_alloc   : nat;             (* entries_alloc *)
+  tm_phys    : nat;             (* 8-byte cells really allocated for each array *)
+  tm_entries : list (Z * Z)     (* (sample_id[i], utc[i]) for i < entries_length *)
 }.
 
-Definition ids (t : tmap) : list Z := map fst (entries t).
-Definition times (t : tmap) : list Z := map snd (entries t).
+Definition ids (t : tmap) : list Z := map fst (tm_entries t).
+Definition times (t : tmap) : list Z := map snd (tm_entries t).
 
-(* rate = num / 2^sh : how the correspondence scripts name a double exactly *)
+(* tm_rate = num / 2^sh : how the correspondence scripts name a double exactly *)
 Definition tmap_rate (num : Z) (sh : N) : Q := Qmake num (Pos.shiftl 1%positive sh).
 
 (* ---- jls_tmap_alloc ---- *)
@@ -75,12 +75,12 @@ Definition tmap_alloc (r : Q) : tmap :=
   mk_tmap r (N.to_nat TMAP_ENTRIES_ALLOC_INIT) (N.to_nat TMAP_ENTRIES_ALLOC_INIT) [].
 
 (* ---- jls_tmap_add ---- *)
-(* if (entries_length >= entries_alloc) { alloc *= 2; realloc(alloc * sizeof(entry)) }
+(* if (entries_length >= entries_alloc) { tm_alloc *= 2; realloc(tm_alloc * sizeof(entry)) }
    (the out-of-memory branch of the C is not modelled) *)
 Definition tmap_grow (t : tmap) : tmap :=
-  if (alloc t <=? length (entries t))%nat then
-    let a := (2 * alloc t)%nat in
-    mk_tmap (rate t) a (a * N.to_nat (SIZEOF_utc_summary_entry / TMAP_CELL_BYTES))%nat (entries t)
+  if (tm_alloc t <=? length (tm_entries t))%nat then
+    let a := (2 * tm_alloc t)%nat in
+    mk_tmap (tm_rate t) a (a * N.to_nat (SIZEOF_utc_summary_entry / TMAP_CELL_BYTES))%nat (tm_entries t)
   else t.
 
 (* the part of jls_tmap_add after the growth, on the entry list: compares with the last
@@ -100,8 +100,8 @@ Fixpoint add_last (es : list (Z * Z)) (s u : Z) : list (Z * Z) * Z :=
 
 Definition tmap_add (t : tmap) (s u : Z) : tmap * Z :=
   let t1 := tmap_grow t in
-  let (es, rc) := add_last (entries t1) s u in
-  (mk_tmap (rate t1) (alloc t1) (phys t1) es, rc).
+  let (es, rc) := add_last (tm_entries t1) s u in
+  (mk_tmap (tm_rate t1) (tm_alloc t1) (tm_phys t1) es, rc).
 
 (* ---- memory read x[i] ---- *)
 Definition rd (junk : Z) (ph : nat) (xs : list Z) (i : nat) : tm_res Z :=
@@ -189,7 +189,7 @@ Definition interp (xs ys : list Z) (x0 : Z) : tm_res Z :=
 Definition qres_of (r : tm_res Z) : qres :=
   match r with TmOk v => QVal v | TmFault f => QFault f end.
 
-(* ---- single entry: extrapolate with the sample rate ----
+(* ---- single entry: extrapolate with the sample tm_rate ----
      dsample = (double)(sample_id - sample_id[0]); dt = dsample / sample_rate; dt *= JLS_TIME_SECOND;
      *timestamp = utc[0] + (int64_t) dt;                                                   *)
 Definition single_id_to_time (r : Q) (s0 u0 q : Z) : tm_res Z :=
@@ -212,20 +212,20 @@ Definition rate_positive (r : Q) : bool := 0 <? Qnum r.
 
 (* ---- jls_tmap_sample_id_to_timestamp (current code) ---- *)
 Definition tmap_sample_id_to_timestamp (t : tmap) (q : Z) : qres :=
-  match entries t with
+  match tm_entries t with
   | [] => QErr TMAP_ERROR_UNAVAILABLE
   | [(s0, u0)] =>
-      if rate_positive (rate t) then qres_of (single_id_to_time (rate t) s0 u0 q)
+      if rate_positive (tm_rate t) then qres_of (single_id_to_time (tm_rate t) s0 u0 q)
       else QErr TMAP_ERROR_UNAVAILABLE
   | _ => qres_of (interp (ids t) (times t) q)
   end.
 
 (* ---- jls_tmap_timestamp_to_sample_id (current code) ---- *)
 Definition tmap_timestamp_to_sample_id (t : tmap) (q : Z) : qres :=
-  match entries t with
+  match tm_entries t with
   | [] => QErr TMAP_ERROR_UNAVAILABLE
   | [(s0, u0)] =>
-      if rate_positive (rate t) then qres_of (single_time_to_id (rate t) s0 u0 q)
+      if rate_positive (tm_rate t) then qres_of (single_time_to_id (tm_rate t) s0 u0 q)
       else QErr TMAP_ERROR_UNAVAILABLE
   | _ => qres_of (interp (times t) (ids t) q)
   end.
@@ -237,7 +237,7 @@ Definition tmap_add_all (t : tmap) (l : list (Z * Z)) : tmap :=
 (* the plain (non-sanitizer) build: the read of x[length] is not detected, it returns
    whatever the heap holds; modelled by an unbounded physical size *)
 Definition tmap_unchecked (t : tmap) : tmap :=
-  mk_tmap (rate t) (alloc t) (S (S (length (entries t)))) (entries t).
+  mk_tmap (tm_rate t) (tm_alloc t) (S (S (length (tm_entries t)))) (tm_entries t).
 
 (* sortedness, index style *)
 Definition sorted_lt (xs : list Z) : Prop :=
@@ -267,7 +267,7 @@ Definition all_in (B : Z) (l : list Z) : Prop := Forall (fun v => - B <= v <= B)
    768bbbf "if (ds == 0.0) return y[low]"), kept as documentation of the fixed defects:
      - the bisection started with high = entries_length and could read x[entries_length]:
        uninitialised heap (`junk`) below capacity, outside the heap object (TmFault Tm_OOB_read)
-       with exactly ENTRIES_ALLOC_INIT entries;
+       with exactly ENTRIES_ALLOC_INIT tm_entries;
      - a zero-width segment (two equal UTC times) divided by zero in double and cast
        NaN/inf to int64 (TmFault Tm_FP_invalid).
    TmapProofs.v: tmap_old_oob_refuted, tmap_old_oob_iff, tmap_old_equal_times_refuted, and
@@ -300,21 +300,21 @@ Definition interp_old (junk : Z) (ph : nat) (xs ys : list Z) (x0 : Z) : tm_res Z
 
 (* jls_tmap_sample_id_to_timestamp, old code *)
 Definition tmap_sample_id_to_timestamp_old (junk : Z) (t : tmap) (q : Z) : qres :=
-  match entries t with
+  match tm_entries t with
   | [] => QErr TMAP_ERROR_UNAVAILABLE
   | [(s0, u0)] =>
-      if rate_positive (rate t) then qres_of (single_id_to_time (rate t) s0 u0 q)
+      if rate_positive (tm_rate t) then qres_of (single_id_to_time (tm_rate t) s0 u0 q)
       else QErr TMAP_ERROR_UNAVAILABLE
-  | _ => qres_of (interp_old junk (phys t) (ids t) (times t) q)
+  | _ => qres_of (interp_old junk (tm_phys t) (ids t) (times t) q)
   end.
 
 (* jls_tmap_timestamp_to_sample_id, old code *)
 Definition tmap_timestamp_to_sample_id_old (junk : Z) (t : tmap) (q : Z) : qres :=
-  match entries t with
+  match tm_entries t with
   | [] => QErr TMAP_ERROR_UNAVAILABLE
   | [(s0, u0)] =>
-      if rate_positive (rate t) then qres_of (single_time_to_id (rate t) s0 u0 q)
+      if rate_positive (tm_rate t) then qres_of (single_time_to_id (tm_rate t) s0 u0 q)
       else QErr TMAP_ERROR_UNAVAILABLE
-  | _ => qres_of (interp_old junk (phys t) (times t) (ids t) q)
+  | _ => qres_of (interp_old junk (tm_phys t) (times t) (ids t) q)
   end.
 
